@@ -11,11 +11,11 @@ echo "base: $(git rev-parse --short HEAD)" >> $LOG
 copy_demo() { if [ -d $D/demo/tests ]; then cp -r $D/demo/tests/. tests/; else cp $D/demo/*.rs tests/; fi; }
 git apply $D/patch.diff || { echo "PATCH FAILED" >> $LOG; exit 2; }
 copy_demo
-RUST_BACKTRACE=0 cargo test --offline --test $T -- --test-threads=1 > /tmp/confirm_$1_with.log 2>&1; W=$?
+RUST_BACKTRACE=0 cargo test --offline ${FEATURES:+--features $FEATURES} --test $T -- --test-threads=1 > /tmp/confirm_$1_with.log 2>&1; W=$?
 echo "demo with patch: exit $W (expected != 0)" >> $LOG
 grep -E "^test result|panicked at|assert" /tmp/confirm_$1_with.log | head -5 >> $LOG
 git checkout -q -- src codegen
-RUST_BACKTRACE=0 cargo test --offline --test $T -- --test-threads=1 > /tmp/confirm_$1_without.log 2>&1; WO=$?
+RUST_BACKTRACE=0 cargo test --offline ${FEATURES:+--features $FEATURES} --test $T -- --test-threads=1 > /tmp/confirm_$1_without.log 2>&1; WO=$?
 echo "demo without patch: exit $WO (expected 0)" >> $LOG
 grep -E "^test result" /tmp/confirm_$1_without.log | head -3 >> $LOG
 git clean -fdq tests >/dev/null 2>&1; git checkout -q -- tests
